@@ -2,11 +2,6 @@ From Coq Require Import List ZArith Bool Lia ZifyBool.
 From SM.gen Require Import Tables.
 From SM.specs Require Import SourceFacts_spec.
 
-Theorem init_resets_in_source_proof : init_resets_in_source.
-Proof. vm_compute. reflexivity. Qed.
-Theorem step_overwrites_in_source_proof : step_overwrites_in_source.
-Proof. vm_compute. reflexivity. Qed.
-
 (* whatever comparisons the helpers use (<=, <, ==, >, >=): split on each test, arithmetic decides *)
 Ltac split_ifs := repeat match goal with |- context [if ?b then _ else _] => destruct b eqn:? end.
 Theorem helpers_use_documented_levels_proof : helpers_use_documented_levels.
@@ -16,13 +11,5 @@ Proof.
 Qed.
 Theorem model_level_is_documented_proof : model_level_is_documented.
 Proof. intros n. unfold doc_level. split_ifs; lia. Qed.
-
 Theorem parameters_separate_iff_level_le_0_proof : parameters_separate_iff_level_le_0.
 Proof. intros c. unfold gen_level_parameters. split_ifs; lia. Qed.
-
-Theorem options_default_off_proof : options_default_off.
-Proof. split; vm_compute; reflexivity. Qed.
-Theorem step_phases_as_modelled_proof : step_phases_as_modelled.
-Proof. vm_compute. reflexivity. Qed.
-Theorem validation_reports_and_raises_together_proof : validation_reports_and_raises_together.
-Proof. repeat split; vm_compute; reflexivity. Qed.
